@@ -144,7 +144,7 @@ class C17(Spec):
                               [34, 1, 1 << 21, rng.below(251)], [1, 1, 2], [6], [2],
                               [1, 0, 6], [3] + rand_bytes(rng, 300), [9], [2], [1, 0, 2], [9], [5], [2]])]
         out += [("mixed", gen_case(rng, rng.choice([10, 25, 50]), tier == "thorough" and rng.chance(1, 10),
-                                   tier == "thorough" and rng.chance(1, 150)))
+                                   tier == "thorough" and rng.chance(1, 600)))
                 for i in range(n - 1)]
         return out
 
